@@ -4,6 +4,10 @@ CONSTANTS MaxN = 2
   Forms <- FormsQuick
   StopKinds = {"close"}
   Scenarios <- ScenQuick
+  Reruns = {FALSE, TRUE}
+  RerunScenarios <- ScenRerunQuick
+  RerunLens <- LensRerunQuick
+  RerunForms <- FormsRerunQuick
   KeepHistory = TRUE
   Design = "rename"
 VIEW view
